@@ -346,12 +346,13 @@ pub fn run(prop: &str, seed: u64, n: usize, outdir: &str, _corpus: Option<&str>)
         "C08" => ("C08Check", "c08_report"),
         "C12" => ("C12Check", "c12_report"),
         "C13" => ("C13Check", "c13_report"),
+        "C10" => ("C10Check", "c10_report"),
         _ => ("TokCheck", "tok_report"),
     };
     let mut sh = Shards::new(
         prop,
         &format!("From Vib Require Import Model.Base Model.Lattice Model.Tokenizer Model.DictBuild Check.TokCheck Check.{}.", check_mod),
-        "tokcase",
+        if prop == "C10" { "c10case" } else { "tokcase" },
         report,
     );
     let mut dist: BTreeMap<String, usize> = BTreeMap::new();
@@ -366,6 +367,7 @@ pub fn run(prop: &str, seed: u64, n: usize, outdir: &str, _corpus: Option<&str>)
             allow_uncovered: prop == "C01" || prop == "C10",
             with_user: if prop == "C08" { 90 } else { 35 },
             tie_heavy: prop == "C02" && rng.chance(1, 2),
+            malformed: prop == "C10" && rng.chance(1, 2),
         };
         let gd = gen_dict(&mut rng, &go);
         let ignore_space = if prop == "C12" { true } else { rng.chance(1, 3) };
@@ -406,7 +408,37 @@ pub fn run(prop: &str, seed: u64, n: usize, outdir: &str, _corpus: Option<&str>)
                 *dist.entry("sentences_with_competing_nodes".into()).or_default() += 1;
             }
         }
-        if sh.push_h(format!("seed:{}", sub), out.term, out.human.clone()) && samples.len() < 2 {
+        let out_term = if prop == "C10" { format!("(C10Struct {})", out.term) } else { out.term.clone() };
+        if prop == "C10" {
+            // second stream: one random edit of ONE of the definition files of this dictionary (text level)
+            let files = [gd.char_def(), GenDict::rows_csv(&gd.unk), gd.matrix_def(), GenDict::rows_csv(&gd.sys), gd.user.as_ref().map_or(String::new(), |u| GenDict::rows_csv(u))];
+            let which = rng.below(5) as usize;
+            let edited = corrupt_text(&mut rng, &files[which]);
+            let mut fs = files.clone();
+            fs[which] = edited.clone();
+            let has_user = gd.user.is_some() || which == 4;
+            let (c, u, m, l, us) = (fs[0].clone(), fs[1].clone(), fs[2].clone(), fs[3].clone(), fs[4].clone());
+            let built = guarded(move || {
+                let d = vibrato::SystemDictionaryBuilder::from_readers(l.as_bytes(), m.as_bytes(), c.as_bytes(), u.as_bytes())?;
+                if has_user { d.reset_user_lexicon_from_reader(Some(us.as_bytes())) } else { Ok(d) }
+            });
+            let code = match &built { Outcome::Ok(_) => 0, Outcome::Err => 1, Outcome::Panic => 2 };
+            let mut souts: Vec<(u8, bool)> = vec![];
+            if let Outcome::Ok(d) = built {
+                let unk_cats: std::collections::BTreeSet<u32> = d.verif_unk_entries().iter().map(|e| e.0 as u32).collect();
+                let uncovered: Vec<bool> = sentences.iter().map(|s| s.chars().any(|ch| !unk_cats.contains(&d.verif_char_info(ch).1))).collect();
+                let t = vibrato::Tokenizer::new(d);
+                for (s, unc) in sentences.iter().zip(uncovered) {
+                    let r = std::panic::catch_unwind(std::panic::AssertUnwindSafe(|| { let mut w = t.new_worker(); w.reset_sentence(s); w.tokenize(); w.num_tokens() }));
+                    souts.push((if r.is_ok() { 0 } else { 2 }, unc));
+                }
+            }
+            let tterm = format!("(C10Text {} {} {} {})", sub, which, code, clist(&souts, |(o, u)| format!("({}, {})", o, cbool(*u))));
+            let thuman = format!("edited file #{} (0 char.def, 1 unk.def, 2 matrix.def, 3 lex.csv, 4 user.csv) = {} ; other files: {} sentences={:?}", which, json_str(&edited), out.human, sentences);
+            *dist.entry(format!("text_edit_outcome_{}", code)).or_default() += 1;
+            sh.push_h(format!("seed:{}:text", sub), tterm, thuman);
+        }
+        if sh.push_h(format!("seed:{}", sub), out_term, out.human.clone()) && samples.len() < 2 {
             samples.push(format!("{{\"case\":{}}}", json_str(&out.human)));
         }
     }
@@ -419,6 +451,33 @@ pub fn run(prop: &str, seed: u64, n: usize, outdir: &str, _corpus: Option<&str>)
         sh.cases.len(), sh.duplicates, shards, nsent, d.join(","), samples.join(",")
     )?;
     Ok(())
+}
+
+/// One random edit of a definition file: drop / duplicate / alter a character, cut the tail,
+/// remove or duplicate a line, blank the file, insert an out-of-range number.
+pub fn corrupt_text(rng: &mut Rng, s: &str) -> String {
+    let mut lines: Vec<String> = s.lines().map(|l| l.to_string()).collect();
+    let mut b: Vec<char> = s.chars().collect();
+    match rng.below(10) {
+        0 => return String::new(),
+        1 if !lines.is_empty() => { let k = rng.below(lines.len() as u64) as usize; lines.remove(k); return lines.join("\n") + "\n"; }
+        2 if !lines.is_empty() => { let k = rng.below(lines.len() as u64) as usize; let l = lines[k].clone(); lines.insert(k, l); return lines.join("\n") + "\n"; }
+        3 if !b.is_empty() => { let k = rng.below(b.len() as u64) as usize; b.truncate(k); }
+        4 if !b.is_empty() => { let k = rng.below(b.len() as u64) as usize; b.remove(k); }
+        5 if !b.is_empty() => { let k = rng.below(b.len() as u64) as usize; b[k] = *rng.pick(&['9', ',', ' ', 'x', '-', '.', '\n', '#']); }
+        6 if !lines.is_empty() => {
+            // replace one number by an out-of-range one
+            let k = rng.below(lines.len() as u64) as usize;
+            let big = *rng.pick(&["70000", "-40000", "99999999999999999999", "0xFFFFFFFFFFFFFFFF", "16", "-1"]);
+            let mut done = false;
+            lines[k] = lines[k].split(|c: char| c == ' ' || c == ',').map(|t| if !done && t.chars().all(|c| c.is_ascii_digit()) && !t.is_empty() { done = true; big.to_string() } else { t.to_string() }).collect::<Vec<_>>().join(if lines[k].contains(',') { "," } else { " " });
+            return lines.join("\n") + "\n";
+        }
+        7 if !lines.is_empty() => { let k = rng.below(lines.len() as u64) as usize; lines[k] = lines[k].split(|c: char| c == ' ' || c == ',').next().unwrap_or("").to_string(); return lines.join("\n") + "\n"; }
+        8 => { b.extend("\n0x0..0xFFFFFFFFFFFFFFFF DEFAULT\n".chars()); }
+        _ => { b.extend("\nZZ 1 1\n".chars()); }
+    }
+    b.into_iter().collect()
 }
 
 /// Changes the length of every space run to another non-zero length, and adds/removes
